@@ -38,6 +38,8 @@ for sid in ids:
     if rc != 0:
         print(sid, "PATCH DOES NOT APPLY", out.strip()[:200])
         continue
+    ev = f"/verif/evidence/{chk}.json"
+    saved = open(ev).read() if os.path.exists(ev) else None
     try:
         t = time.time()
         rc, out = sh(f"./check {chk} --tier {tier}", cwd="/verif")
@@ -61,4 +63,7 @@ for sid in ids:
         print(sid, "check", chk, tier, "exit", rc, (viol[-1][:160] if viol else ""))
     finally:
         sh("git -C /repo checkout -- .")
+        # the evidence file describes the unchanged tree: a run against a seeded defect must not replace it
+        if saved is not None:
+            open(ev, "w").write(saved)
     assert sh("git -C /repo status --short")[1].strip() == "", "/repo not clean after " + sid
